@@ -72,6 +72,8 @@ def verify(prefix, bank, mode, count, lex_now, nodes, roots, tags, ref_gram, ref
     for (f, l), c in count.items():
         rewriting[f[0]] += c
     for label, n in nodes.items():
+        if is_bin(label):
+            continue        # an @-label of an already binarized treebank may coincide with a generated symbol: only law (b) applies
         if rewriting.get(label, 0) != n:
             raise violation(prefix + "/per-label-sum", "label %s: rules rewriting it sum to %d, treebank has %d nodes" % (label, rewriting.get(label, 0), n))
     # (b) flow conservation for every symbol
@@ -88,8 +90,10 @@ def verify(prefix, bank, mode, count, lex_now, nodes, roots, tags, ref_gram, ref
                             % (sym, rewriting.get(sym, 0), tags.get(sym, 0), used.get(sym, 0), roots.get(sym, 0)))
     # (c) sums over trees and vertical contexts
     ref_tot = totals(ref_gram)
-    if mode["type"] != "treebank" and not mode.get("markov"):
+    at_labels = any(is_bin(n["l"]) for tree in bank for n in M.constituents(tree["root"]))
+    if mode["type"] != "treebank" and not mode.get("markov") and not at_labels:
         # deterministic: unique chains; every rule of a chain carries the total of its original rule
+        # (not for treebanks that already contain @-labelled nodes: their rules may coincide with generated ones)
         defs = {f[0]: (f, l) for (f, l) in count if is_bin(f[0])}
         for (f, l), c in count.items():
             if is_bin(f[-1]) and f[-1] in defs and count[defs[f[-1]]] != c:
@@ -136,6 +140,13 @@ def sandwich_banks():
     for order in itertools.permutations(range(3)):
         yield [{"sid": i + 1, "root": trees[k]} for i, k in enumerate(order)]
     yield [{"sid": i + 1, "root": t} for i, t in enumerate([gap, gap, flat, cont, flat, gap])]
+    # a treebank that is already binarized: its labels look like the symbols the binarization generates (@1X
+    # deterministic, @X for v:0 h:0), so original rules coincide with generated ones and their counts must add up
+    for sym in ("@1X", "@X", "@2X"):
+        ternary = node("VROOT", [node("S", [tok("a", "A", 1), tok("b", "B", 2), tok("c", "C", 3)])])
+        binary = node("VROOT", [node("S", [tok("a", "A", 1), node(sym, [tok("b", "B", 2), tok("c", "C", 3)])])])
+        for order in ([ternary, binary], [binary, ternary], [ternary, binary, binary, ternary]):
+            yield [{"sid": i + 1, "root": t} for i, t in enumerate(order)]
 
 
 def gen(ctx):
@@ -148,7 +159,7 @@ def gen(ctx):
                 ctx.run_case(check, case)
             except Violation as vio:
                 ctx.record(vio)
-            ctx.count(key=(bank, "all-modes"), nontrivial=True, classes=["sandwich:contexts-coincide-non-adjacently"])
+            ctx.count(key=(bank, "all-modes"), nontrivial=True, classes=["fixed-treebanks:coinciding-contexts-or-binarization-like-labels"])
 
     @st.composite
     def cases(draw):
